@@ -94,6 +94,9 @@ type fullStart struct {
 	FailGetAt  int64 `json:"failGetAt,omitempty"`  // this Get/Has fails (0 = never)
 	FailGetAll bool  `json:"failGetAll,omitempty"` // … and every later one
 	FailIterAt int64 `json:"failIterAt,omitempty"` // this NewIterator fails
+	// FailKey: a read of the RUNNER fails with an I/O error: "meta" = NewRunner's read of the schema
+	// metadata, "ist<i>" = runMigration's read of the stored resume token of migration i
+	FailKey string `json:"failKey,omitempty"`
 }
 
 type fullHistory struct {
@@ -246,8 +249,14 @@ type fullRun struct {
 	nContracts      int
 	seed            uint64
 	failInMigrate   bool // an injected write failure happened inside a migration
-	readFailOutside bool // an injected read failure hit the runner's own reads / the deprecated step
-	failTk          int  // model tick of a failed RUNNER write (0: none)
+	readFailOutside bool // an injected read failure hit the deprecated step (not modelled)
+	outsideFails    int  // injected read failures outside every Migrate
+	modelledFails   int  // … of which: the runner's own reads (metadata in NewRunner, a resume token in runMigration)
+	metaReadFailed  bool
+	istReadFailed   []int
+	cancelledAtRet  map[int]bool // ctx.Err() != nil when Migrate of idx returned
+	btRet           string
+	failTk          int // model tick of a failed RUNNER write (0: none)
 	height          uint64
 }
 
@@ -286,6 +295,12 @@ func (m *recMig) Migrate(ctx context.Context, database db.KeyValueStore, n *netw
 		fr.hsPre = hsAbstract(fr.store.Database, fr.seed, fr.nContracts)
 	}
 	st, err := m.inner.Migrate(ctx, database, n, l)
+	fr.mu.Lock()
+	fr.cancelledAtRet[m.idx] = ctx.Err() != nil
+	fr.mu.Unlock()
+	if m.idx == 0 {
+		fr.btRet = classifyRet(st, err)
+	}
 	if m.idx == 2 {
 		fr.hsPost = hsAbstract(fr.store.Database, fr.seed, fr.nContracts)
 		switch {
@@ -307,7 +322,7 @@ func (m *recMig) Migrate(ctx context.Context, database db.KeyValueStore, n *netw
 		case st == nil:
 			fr.sdlRet = "done"
 		case len(st) == 8:
-			fr.sdlRet = fmt.Sprintf("rerun:%d", binary.BigEndian.Uint64(st))
+			fr.sdlRet = fmt.Sprintf("rerun:%d:%x", binary.BigEndian.Uint64(st), st)
 		default:
 			fr.sdlRet = "rerun:?"
 		}
@@ -366,6 +381,8 @@ type fullOutcome struct {
 	gets, iters     int64
 	readFailOutside bool
 	panicS          string
+	cancelledAtRet  map[int]bool
+	btRet           string
 }
 
 // realFullStart runs NewRunner + Run with the real migrations on (a copy of) d.
@@ -386,12 +403,42 @@ func realFullStart(d *memory.Database, spec fullSpec, sp fullStart) fullOutcome 
 	defer cancel()
 	fr := &fullRun{store: store, obs: map[int]*observed{}, cancelTk: never, crashTk: never, height: height, sdlIdx: 3,
 		nContracts: spec.Contracts, seed: spec.Chain.Seed}
+	fr.cancelledAtRet = map[int]bool{}
 	store.onReadFail = func() {
 		fr.mu.Lock()
 		if !fr.inMigrate || fr.inDeprecated {
-			fr.readFailOutside = true
+			fr.outsideFails++
 		}
 		fr.mu.Unlock()
+	}
+	metaKey := string(db.SchemaMetadata.Key())
+	istPrefix := string(db.SchemaIntermediateState.Key())
+	if sp.FailKey != "" {
+		want := metaKey
+		if strings.HasPrefix(sp.FailKey, "ist") {
+			i, _ := strconv.Atoi(sp.FailKey[3:])
+			want = istPrefix + string([]byte{uint8(i)})
+		}
+		store.getFailKey = func(key []byte) bool {
+			fr.mu.Lock()
+			defer fr.mu.Unlock()
+			return !fr.inMigrate && !fr.inDeprecated && string(key) == want
+		}
+	}
+	store.onReadFailKey = func(key []byte) {
+		fr.mu.Lock()
+		defer fr.mu.Unlock()
+		if fr.inMigrate || fr.inDeprecated {
+			return
+		}
+		switch {
+		case string(key) == metaKey:
+			fr.metaReadFailed = true
+			fr.modelledFails++
+		case len(key) == len(istPrefix)+1 && string(key[:len(istPrefix)]) == istPrefix:
+			fr.istReadFailed = append(fr.istReadFailed, int(key[len(istPrefix)]))
+			fr.modelledFails++
+		}
 	}
 	store.onFail = func() {
 		fr.mu.Lock()
@@ -439,7 +486,7 @@ func realFullStart(d *memory.Database, spec fullSpec, sp fullStart) fullOutcome 
 	fr.inDeprecated = false
 	fr.mu.Unlock()
 	if depErr != nil && store.readsFailed.Load() > 0 {
-		out.open, out.after, out.readFailOutside, out.failedReads = "read-failed", d, true, store.readsFailed.Load()
+		out.open, out.after, out.readFailOutside, out.failedReads = "read-failed-deprecated", d, true, store.readsFailed.Load()
 		out.line = fmt.Sprintf("run %s %d %d", regS, never, never)
 		return out
 	}
@@ -451,8 +498,11 @@ func realFullStart(d *memory.Database, spec fullSpec, sp fullStart) fullOutcome 
 	}
 	runner, err := migration.NewRunner(reg, store, &networks.Sepolia, log.NewNopZapLogger())
 	if err != nil && store.readsFailed.Load() > 0 {
-		out.open, out.after, out.readFailOutside, out.failedReads = "read-failed", d, true, store.readsFailed.Load()
-		out.line = fmt.Sprintf("run %s %d %d", regS, never, never)
+		out.open, out.after, out.failedReads = "read-failed", d, store.readsFailed.Load()
+		fr.mu.Lock()
+		out.readFailOutside = !(fr.metaReadFailed && fr.outsideFails == fr.modelledFails)
+		fr.mu.Unlock()
+		out.line = fmt.Sprintf("run %s %d %d rmeta", regS, never, never)
 		return out
 	}
 	if err != nil {
@@ -494,7 +544,9 @@ func realFullStart(d *memory.Database, spec fullSpec, sp fullStart) fullOutcome 
 		out.hsPost, out.hsRet = hsAbstract(fr.image, fr.seed, fr.nContracts), "crashed"
 	}
 	out.failedWrites = store.failed
-	out.failedReads, out.gets, out.iters, out.readFailOutside = store.readsFailed.Load(), store.reads.Load(), store.iters.Load(), fr.readFailOutside
+	out.failedReads, out.gets, out.iters = store.readsFailed.Load(), store.reads.Load(), store.iters.Load()
+	out.readFailOutside = fr.readFailOutside || fr.outsideFails > fr.modelledFails
+	out.cancelledAtRet, out.btRet = fr.cancelledAtRet, fr.btRet
 	if fr.image != nil && fr.sdlPre != nil && (fr.sdlPost == nil || fr.crashInSdl) {
 		// the process died inside statedifflength.Migrate: the image is what it left
 		out.sdlPost, out.sdlRet = sdlAbstract(fr.image, height), "crashed"
@@ -505,7 +557,7 @@ func realFullStart(d *memory.Database, spec fullSpec, sp fullStart) fullOutcome 
 	} else {
 		out.after = work
 	}
-	ms := startSpec{Reg: regS, CancelAt: fr.cancelTk, CrashAt: fr.crashTk, FailAt: fr.failTk}
+	ms := startSpec{Reg: regS, CancelAt: fr.cancelTk, CrashAt: fr.crashTk, FailAt: fr.failTk, IstReadFail: fr.istReadFailed}
 	out.line = ms.modelLine(fr.obs)
 	return out
 }
@@ -646,6 +698,9 @@ func (h *harness) fullHistoryCase(hist fullHistory, family string) {
 			res.Hit("full-start:read-failed")
 		}
 		if o.open == "read-failed" {
+			h.compareFullStart(hist, si, o)
+		}
+		if o.open == "read-failed" || o.open == "read-failed-deprecated" {
 			// the fault hit before the runner existed: the start failed, nothing may have changed
 			if same, why := sameDump(dump(o.after), dump(cur)); !same {
 				res.Violate(lib.Violation{Sig: "upgrade-read-error-before-run-changes-database", What: why, Replay: hist})
@@ -789,12 +844,19 @@ func (h *harness) compareFullStart(hist fullHistory, si int, o fullOutcome) {
 	disk, _, _, _ := readDisk(o.after)
 	var want string
 	switch {
+	case o.open == "read-failed":
+		want = "readerr " + disk
+		h.res.Hit("full-start:metadata-read-failed-agrees-with-model")
 	case o.open != "ok":
 		want = "refused " + disk
 		if f := strings.SplitN(ans, " ", 2); len(f) == 2 && strings.HasPrefix(f[0], "refused:") {
 			ans = "refused " + f[1]
 		}
 	default:
+		if strings.Contains(o.line, " rist=") {
+			h.res.Hit("full-start:token-read-failed-modelled")
+		}
+		h.glueTie(hist, si, o)
 		// results are compared as ok / not ok; a crashed start only by its disk
 		if i := strings.Index(ans, " calls="); i >= 0 {
 			ans = ans[:i]
@@ -816,6 +878,50 @@ func (h *harness) compareFullStart(hist fullHistory, si int, o fullOutcome) {
 		sort.Ints(keys)
 		h.res.Mismatch(lib.Mismatch{Sig: "full-upgrade-start-differs", Input: map[string]any{"history": hist, "start": si, "line": o.line},
 			Model: ans, Impl: want})
+	}
+}
+
+// glueTie: what the REAL runner did with what a real migration returned (applied bit set / state stored /
+// nothing) against the model's `reaction` applied to the data model's return class (`glue` request: the
+// mapping Ret -> (state, error class) of the composed model + the runner's decision).
+func (h *harness) glueTie(hist fullHistory, si int, o fullOutcome) {
+	if o.crashed || o.failedWrites > 0 || o.after == nil {
+		return // the runner's own write may not have happened
+	}
+	_, md, has, ist := readDisk(o.after)
+	for idx, mig := range map[int]string{0: "bt", 2: "hs", 3: "sdl"} {
+		ob := o.obs[idx]
+		if ob == nil || !ob.called {
+			continue
+		}
+		ret := map[string]string{"bt": o.btRet, "hs": o.hsRet, "sdl": o.sdlRet}[mig]
+		if ret == "" || ret == "crashed" || strings.HasPrefix(ret, "rerun:?") {
+			continue
+		}
+		if f := strings.Split(ret, ":"); len(f) == 3 { // rerun:<n>:<hex> -> rerun:<n>
+			ret = f[0] + ":" + f[1]
+		}
+		c := "0"
+		if o.cancelledAtRet[idx] {
+			c = "1"
+		}
+		ans := h.bt.ask(fmt.Sprintf("glue %s %s %s", mig, ret, c))
+		var real string
+		st, stored := ist[idx]
+		switch {
+		case has && md.CurrentVersion.Has(uint8(idx)):
+			real = "apply"
+		case stored && ob.st != nil && string(st) == string(ob.st):
+			real = "save:" + showState(st)
+		default:
+			real = "error"
+		}
+		h.res.Compared(1)
+		h.res.Hit("glue:" + mig + ":" + strings.SplitN(real, ":", 2)[0])
+		if ans != real {
+			h.res.Mismatch(lib.Mismatch{Sig: "runner-reaction-to-" + mig + "-return-differs", Input: map[string]any{"history": hist, "start": si,
+				"ret": ret, "cancelled": c}, Model: ans, Impl: real})
+		}
 	}
 }
 
@@ -930,6 +1036,33 @@ func (h *harness) fullAll() {
 		}
 		for i := int64(1); i <= tw.iters; i += tw.iters/15*int64(step) + 1 {
 			h.fullHistoryCase(fullHistory{Spec: pr, Starts: []fullStart{{Prune: true, HeadState: true, Inflate: true, FailIterAt: i}}}, "prune-readfault")
+		}
+	}
+	// read faults of the RUNNER itself in the whole upgrade (selected by key, so independent of how many reads the
+	// migrations make): the metadata in NewRunner; the stored resume token of each migration — on a fresh
+	// database and after a start that was cancelled inside that migration (so a token IS stored and the
+	// failed read must not be taken for "no token")
+	for _, spc := range []struct {
+		fs    fullSpec
+		prune bool
+	}{{fixed, false}, {pr, true}} {
+		d0, err := spc.fs.build()
+		if err != nil {
+			continue // reported above
+		}
+		tw := realFullStart(d0, spc.fs, fullStart{Prune: spc.prune, HeadState: true, Inflate: true})
+		keys := []string{"meta", "ist0", "ist2", "ist3"}
+		if spc.prune {
+			keys = append(keys, "ist1")
+		}
+		for _, k := range keys {
+			h.fullHistoryCase(fullHistory{Spec: spc.fs, Starts: []fullStart{{Prune: spc.prune, HeadState: true, FailKey: k}}}, "runner-readfault")
+			for _, frac := range []int{8, 3, 2} {
+				c := tw.commits * (frac - 1) / frac
+				h.fullHistoryCase(fullHistory{Spec: spc.fs, Starts: []fullStart{
+					{Prune: spc.prune, HeadState: true, Inflate: true, CancelAt: c},
+					{Prune: spc.prune, HeadState: true, FailKey: k}}}, "runner-readfault-after-cancel")
+			}
 		}
 	}
 	h.pruneBoundaryFamilies()
